@@ -231,41 +231,57 @@ Print Assumptions C04_parse_sets_in_bounds.
 (* ---------------------------------------------------------------------------------------- *)
 (* PARSE_DENOTES: concrete syntax -> six sets                                                *)
 
-(* [parse_doc_out o spec] (Check.v) is the documented grammar's opinion on a spec, written
-   with Spec.v only: numbers, month / day names in any capitalisation, '*', '?' (day fields),
-   v-w, */s, v/s, v-w/s, comma lists; fields split on white space and completed for the
-   option set o (omitted seconds = 0, omitted or optional fields). It is Some (ObsOk ...) -
-   the six denoted sets, bit 63 = the field is unrestricted - when every item is valid,
-   Some ObsErr when some item is not (value out of range, inverted range, zero step) or when
-   some field holds an item the documentation refuses by name (a word of letters and digits
-   that is neither a number nor a name of that field - "Mayhem", "janx", "1e1", a month name
-   in the day-of-week field - or such a word as step), None
-   when the spec has a TZ prefix, is a descriptor, has the wrong number of fields or uses
-   syntax outside the documented grammar.
-   Whenever it has an opinion, the model of NewParser(o).Parse(spec) does exactly that - for
-   EVERY option set, either variant, any oracles. *)
-Theorem C04_parse_denotes : forall v o ll pd spec,
-  match parse_doc_out o spec with
-  | Some (ObsOk a b c d e f) => parse v o ll pd spec = Ok (SpecSched a b c d e f LocLocal)
-  | Some ObsErr => exists err, parse v o ll pd spec = Err err
-  | Some _ => False
+(* [parse_doc_out o zo du spec] (Check.v) is the documented grammar's opinion on a spec, written
+   with Spec.v only. [zo], [du] are the answers of time.LoadLocation (for the name in a
+   TZ=/CRON_TZ= prefix) and time.ParseDuration (for what follows "@every "); None = error.
+   * FIELD LISTS: numbers, month / day names in any capitalisation, '*', '?' (day fields), v-w,
+     */s, v/s, v-w/s, comma lists; fields split on white space and completed for the option
+     set o. Some (ObsOk ...) - the six denoted sets, bit 63 = the field is unrestricted - when
+     every item is valid; Some ObsErr when some item is not (value out of range, inverted
+     range, zero step), when some field holds an item the documentation refuses by name (a
+     word that is neither a number nor a name of that field: "Mayhem", "janx", "1e1"), or when
+     the number of fields does not fit the option set; None for syntax outside the documented
+     grammar ("*-5", "+5", an empty list item).
+   * DESCRIPTORS: a descriptor is the WHOLE spec after the optional prefix: one of @yearly,
+     @annually, @monthly, @weekly, @daily, @midnight, @hourly - each denoting the six-field
+     expression doc.go lists for it - or "@every " and ONE duration (d truncated to seconds,
+     at least 1 s). Anything else starting with '@' (unknown name, other capitalisation, words
+     after the descriptor, a second duration word), and any descriptor when the Descriptor
+     option is off, is Some ObsErr.
+   * TZ=/CRON_TZ= PREFIX: unknown zone or no following field list: Some ObsErr; otherwise the
+     rest of the spec, trimmed, as above. The empty spec: Some ObsErr.
+   PARSE_DENOTES: whenever it has an opinion, the model of NewParser(o).Parse(spec) does
+   exactly that - for EVERY option set; with a TZ prefix for the current tree (before commit
+   82178ca a prefix without fields panicked). *)
+Theorem C04_parse_denotes : forall v o zo du spec,
+  v = Fixed \/ has_tz_prefix spec = false ->
+  match parse_doc_out o zo du spec with
+  | Some (ObsOk a b c d e f) =>
+      exists loc, parse v o (fun _ => zo) (fun _ => du) spec = Ok (SpecSched a b c d e f loc)
+  | Some (ObsEvery n) => parse v o (fun _ => zo) (fun _ => du) spec = Ok (EverySched n)
+  | Some ObsErr => exists err, parse v o (fun _ => zo) (fun _ => du) spec = Err err
+  | Some ObsPanic => False
   | None => True
   end.
 Proof. exact parse_denotes. Qed.
 Print Assumptions C04_parse_denotes.
 
-(* ... and behind a TZ= / CRON_TZ= prefix whose zone loads: the rest of the spec denotes the
-   same six sets and the schedule carries the loaded location. *)
-Theorem C04_parse_denotes_tz : forall v o ll pd spec loc rest,
-  new_parser_panics o = false -> spec <> [] -> strip_tz v ll spec = Ok (loc, rest) ->
-  match parse_doc_out o rest with
-  | Some (ObsOk a b c d e f) => parse v o ll pd spec = Ok (SpecSched a b c d e f loc)
-  | Some ObsErr => exists err, parse v o ll pd spec = Err err
-  | Some _ => False
-  | None => True
-  end.
-Proof. exact parse_denotes_tz. Qed.
-Print Assumptions C04_parse_denotes_tz.
+(* The oracle is not vacuous: what it says about descriptors, trailing words, prefixes. *)
+Theorem C04_parse_doc_examples :
+  (exists a b c d e f, parse_doc_out 380 None None (bs "@monthly") = Some (ObsOk a b c d e f)) /\
+  parse_doc_out 380 None (Some 5400000000000) (bs "@every 1h30m") = Some (ObsEvery 5400000000000) /\
+  parse_doc_out 380 None None (bs "@every 1h 30m") = Some ObsErr /\
+  parse_doc_out 380 None None (bs "@daily 5 * * * *") = Some ObsErr /\
+  parse_doc_out 380 None None (bs "@yearly @monthly") = Some ObsErr /\
+  parse_doc_out 380 (Some (fixed_zone 0)) None (bs "TZ=UTC @monthly 15") = Some ObsErr /\
+  (exists a b c d e f,
+     parse_doc_out 380 (Some (fixed_zone 0)) None (bs "TZ=UTC @monthly") = Some (ObsOk a b c d e f)) /\
+  parse_doc_out 380 None None (bs "TZ=Nowhere * * * * *") = Some ObsErr /\
+  parse_doc_out 380 (Some (fixed_zone 0)) None (bs "TZ=UTC") = Some ObsErr /\
+  parse_doc_out 124 None None (bs "@daily") = Some ObsErr /\
+  parse_doc_out 380 None None (bs "* * * *") = Some ObsErr.
+Proof. exact parse_denotes_descriptors. Qed.
+Print Assumptions C04_parse_doc_examples.
 
 (* One field: a comma list of documented items read by getField gives exactly the denoted
    set (Some (Some bits)) or an error (Some None: some item invalid). [fr_ok f r] ties a field
@@ -301,8 +317,7 @@ Theorem C04_refused_item_rejected : forall f r e,
 Proof. exact refused_item_rejected. Qed.
 Print Assumptions C04_refused_item_rejected.
 
-(* REMAINDER (not a theorem): descriptors (@yearly ... are fixed bit sets in the model, not
-   related to a grammar), and the syntax the code accepts BEYOND the documented grammar
+(* REMAINDER (not a theorem): the syntax the code accepts BEYOND the documented grammar
    ("*-5", "+5", '?' outside the day fields, empty list items, U+0130 / U+212A in names): for
    those only C04_item_denotes_range above speaks (a stepped range inside the bounds). *)
 
